@@ -12,6 +12,13 @@ TRUSTED_RUST = [
     "Model B keeps children inside their parents; the gap to the arena layout is covered by comparing complete arena dumps after every call (not by proof)",
 ]
 
+ASSUMPTIONS_RUST = [
+    "the theorems are about hand-written Coq models; the tie to /repo is this run's correspondence check (finite, generator-bounded)",
+    "Vec / slice::binary_search (on sorted slices) / mem::take behave as documented; safe Rust has no undefined behaviour",
+    "fewer than 2^32-1 slots per arena (hypothesis `fits` of the history theorems)",
+    "key comparison is a total order that does not panic or mutate the map",
+]
+
 # levels: trace line prefixes compared for the property
 PROPS = {
     "C01": dict(target="rust", levels=["O", "S2", "CH"], quick=(16, 14), thorough=(64, 40)),
@@ -155,9 +162,10 @@ def verdict(prop, cfg, tier, seed, pr, results, runner, drv, t0, vp):
         for l in open(os.path.join(d, "viol")):
             if l.startswith("VIOL " + prop + " "):
                 viols.append((d, l.strip()))
-        if len(samples) < 2:
+        if len(samples) < 3:
             ops = open(os.path.join(d, "ops")).read().split("\n")
-            samples.append(ops[:12])
+            if len(ops) < 2000 or len(samples) == 0:
+                samples.append(ops[:14])
     if prop in ("C05", "C15"):
         cen = unsafe_census()
         if cen != UNSAFE_CENSUS:
@@ -168,7 +176,7 @@ def verdict(prop, cfg, tier, seed, pr, results, runner, drv, t0, vp):
     for r in results:
         try:
             for l in open(os.path.join(r["dir"], "ops")):
-                k = l.split(" ", 1)[0]
+                k = l.strip().split(" ", 1)[0]
                 if k == "A":
                     k = "A " + l.split()[1]
                 histo[k] = histo.get(k, 0) + 1
@@ -262,7 +270,7 @@ def verdict(prop, cfg, tier, seed, pr, results, runner, drv, t0, vp):
             op_histogram=histo, divergent_histories=len(divs), oracle_violations=len(viols),
             samples=samples,
         ),
-        assumptions=cfg.get("assumptions", []),
+        assumptions=cfg.get("assumptions", ASSUMPTIONS_RUST),
     )
     vp.write_evidence(prop, ev)
     # keep the traces of failing shards only (disk space)
